@@ -13,7 +13,7 @@ end session
 namespace Skel
 def CleanupStale : List String := ["mu.Lock", "IsStale", "unindexLocked", "delete", "mu.Unlock", "closeFn", "stream.Close"]
 def CloseConnection : List String := ["connLock.Lock", "delete", "connLock.Unlock", "Stream.Close", "RawConn.Close", "RemoveControlConnection", "RemoveTunnelConnection"]
-def CreateConnection : List String := ["connLock.Lock", "connLock.Unlock"]
+def CreateConnection : List String := ["connLock.Lock", "connLock.Unlock", "connLock.Unlock"]
 def DropStaleIndex : List String := ["mu.Lock", "mu.Unlock", "delete"]
 def GetByClientID : List String := ["mu.RLock", "mu.RUnlock"]
 def KickOldConnection : List String := ["mu.Lock", "unindexLocked", "delete", "mu.Unlock", "sendKickFn", "stream.Close"]
